@@ -784,6 +784,37 @@ macro_rules! value_payload_unit {
 // @unit C03.value_payload.t props=C03,C04,C07 kind=bounded bound=buffer<=16,payload=t fn=<zvariant::dbus::de::ValueDeserializer.as.serde::de::SeqAccess>::next_element_seed stubs=C03.parse_padding,C03.de_u64 timeout=900
 value_payload_unit!(c03_value_payload_t__n16, stub_sig_from_bytes_t, b't', 8, "C03.value_payload.t.ok_iff_valid_payload", "C03.value_payload.t.value_at_absolute_alignment", "C03.value_payload.t.consumed", "C03.value_payload.t.outer_depth_unchanged");
 
+// The signature carried by a variant must be exactly ONE complete type (D-Bus specification, VARIANT).
+// Concrete inputs, real `Signature::from_bytes` (the winnow parser is tractable on concrete bytes).
+// @unit C03.value_sig.instances props=C03 kind=instance bound=3-concrete-variant-signatures fn=<zvariant::dbus::de::ValueDeserializer.as.serde::de::SeqAccess>::next_element_seed,zvariant_utils::signature::Signature::from_bytes timeout=900
+#[cfg(kani)]
+#[kani::proof]
+#[kani::stub(alloc::fmt::format, stub_format)]
+#[kani::stub(<Signature as std::clone::Clone>::clone, stub_sig_clone)]
+#[kani::stub(<str as std::string::ToString>::to_string, stub_str_to_string)]
+#[kani::unwind(12)]
+fn c03_value_sig__instances() {
+    let k: u8 = kani::any();
+    kani::assume(k < 3);
+    // [sig len][sig bytes][NUL][padding][payload]
+    let two_types: [u8; 12] = [2, b'i', b'i', 0, 1, 0, 0, 0, 2, 0, 0, 0];   // "ii": two complete types
+    let empty: [u8; 12] = [0, 0, 0, 0, 1, 0, 0, 0, 2, 0, 0, 0];             // "": no type at all
+    let single: [u8; 12] = [1, b'u', 0, 0, 5, 0, 0, 0, 0, 0, 0, 0];         // "u": valid
+    let bytes: &[u8] = match k { 0 => &two_types, 1 => &empty, _ => &single };
+    let mut de: De<'_> = Deserializer(DeserializerCommon {
+        ctxt: Context::new_dbus(Endian::Little, 0), bytes, fds: None, pos: 0,
+        signature: &SIG_VARIANT, container_depths: ContainerDepths::default(),
+    });
+    de.0.pos = 1 + bytes[0] as usize + 1;
+    let mut vd = ValueDeserializer { de: &mut de, stage: ValueParseStage::Value, sig_start: 0 };
+    let r = vd.next_element_seed(core::marker::PhantomData::<u32>);
+    if k == 0 { obl!("C03.value_sig.instances.two_complete_types_rejected", r.is_err()); }
+    if k == 1 { obl!("C03.value_sig.instances.empty_signature_rejected", r.is_err()); }
+    if k == 2 { obl!("C03.value_sig.instances.single_type_accepted", matches!(r, Ok(Some(5)))); }
+    kani::cover!(k == 2 && r.is_ok(), "cover.valid_ok");
+    core::mem::forget(r);
+}
+
 // Stage Signature and stage Done of the same state machine.
 // @unit C03.value_stages props=C03,C04 kind=bounded bound=buffer<=6 fn=<zvariant::dbus::de::ValueDeserializer.as.serde::de::SeqAccess>::next_element_seed,zvariant::dbus::de::ValueDeserializer::new stubs=C03.parse_padding timeout=900
 #[cfg(kani)]
